@@ -24,6 +24,7 @@ From SV Require Import Bytes Lexer Tables ArgCheck ArgSpec Machine Printer GenTa
 Import ListNotations.
 Local Open Scope nat_scope.
 From SV Require Import PositionFacts TotalFacts CompleteFacts CompleteTree RejectFacts RejectExamples.
+From SV Require Import LexRules.
 
 (* the specification of lines: split_lf is the only LF-free, non-empty decomposition that joins back to the text *)
 Theorem C18_split_unique :
@@ -239,4 +240,8 @@ Proof. vm_compute. reflexivity. Qed.
 
 Example C18_surplus_string :
   error_pos (bs "stop ""x"";") (parse gen_tables (bs "stop ""x"";")) = Some (1, 6, 3).
+Proof. vm_compute. reflexivity. Qed.
+
+(* Parser.lrules of the working tree are the regular expressions the scanners of sieve/Lexer.v were translated from *)
+Example C18_lexer_rules : gen_lrules = expected_lrules.
 Proof. vm_compute. reflexivity. Qed.
